@@ -158,6 +158,16 @@ def cfg_constants(cfg, oracle=None, hist=False):
     return c
 
 
+def negative_constants(consts):
+    """TLC configuration files do not accept negative numbers: they are defined in the wrapper module and substituted"""
+    defs = ''
+    for k, v in list(consts.items()):
+        if isinstance(v, str) and v.lstrip().startswith('-') and v.strip()[1:].isdigit():
+            defs += f'mc_{k} == {v}\n'
+            consts[k] = ('<-', f'mc_{k}')
+    return defs
+
+
 def validate_batch(cfg, runs, workdir, timeout=600):
     """validate runs (same cfg) with TLC; returns (verdicts by tid, TlcResult)"""
     os.makedirs(workdir, exist_ok=True)
@@ -165,10 +175,11 @@ def validate_batch(cfg, runs, workdir, timeout=600):
     with open(tf, 'w') as f:
         json.dump(dict(runs=[dict(tid=r['tid'], ev=r['ev']) for r in runs]), f)
     mod = os.path.join(workdir, 'TV.tla')
-    with open(mod, 'w') as f:
-        f.write('---- MODULE TV ----\nEXTENDS TracePfasstSerial\nmc_NSW == %s\n====\n' % tlc.tla_value(list(cfg['NSW'])))
     consts = cfg_constants(cfg)
     consts['NSW'] = ('<-', 'mc_NSW')
+    negs = negative_constants(consts)
+    with open(mod, 'w') as f:
+        f.write('---- MODULE TV ----\nEXTENDS TracePfasstSerial\nmc_NSW == %s\n%s====\n' % (tlc.tla_value(list(cfg['NSW'])), negs))
     cfgp = os.path.join(workdir, 'TV.cfg')
     tlc.write_cfg(cfgp, spec='TraceSpec', constants=consts, check_deadlock=False, postcondition=None)
     res = tlc.run_tlc('TV', cfgp, workers=1, timeout=timeout, env_extra={'TRACE_FILE': tf}, spec_dir=workdir,
